@@ -211,7 +211,9 @@ func Pool(r *rand.Rand, n int) []s2.Point {
 		default:
 			p = OnPlane(r, plane)
 		}
-		if n2 := p.Norm2(); !(n2 > 0.5 && n2 < 2) {
+		// unit length as the library defines it (|v|^2 within 5 * 2^-52 of 1): nudges of nudged pool members
+		// can drift further than that, and the predicates' error bounds are stated for unit vectors only
+		if n2 := p.Norm2(); !(math.Abs(n2-1) <= 5*2.220446049250313e-16) {
 			continue
 		}
 		ps = append(ps, p)
